@@ -30,8 +30,13 @@ det="n/a"; lines=""
 if [ $res_apply = ok ]; then
   if [ -n "$(git -C /repo status --porcelain --untracked-files=no)" ]; then echo "/repo is dirty, refusing"; exit 2; fi
   git -C /repo apply "$dst/patch.diff"
-  out=$(cd /verif && ./check.sh "$id" "$tier" 2>&1); rc=$?
+  cid="${CHECK_ID:-$id}"
+  # the evidence file describes the unchanged tree: keep it out of the seeded run's way
+  [ -f "/verif/evidence/$cid.json" ] && cp "/verif/evidence/$cid.json" "/tmp/seedv-evidence-$cid.json"
+  out=$(cd /verif && ./check.sh "$cid" "$tier" 2>&1); rc=$?
   git -C /repo checkout -- .
+  [ -f "/tmp/seedv-evidence-$cid.json" ] && mv "/tmp/seedv-evidence-$cid.json" "/verif/evidence/$cid.json"
+  [ "$cid" != "$id" ] && tier="$tier@$cid"
   lines=$(echo "$out" | grep -A1 "^VIOLATION" | cut -c1-300 | head -8)
   det="exit=$rc"
 fi
